@@ -4,6 +4,8 @@ EXTENDS CoNodeGen
 L09 == {<<"nmt", cs, t>> : cs \in {1, 2, 128, 129, 130, 3, 0}, t \in {0, 5, 6}}
        \cup {<<"setmode", m>> : m \in {1, 2, 3, 4}} \cup {<<"bootup">>}      \* (1 = INITIALISATION: the application holds the node there, CONmtBootup ends it)
        \cup {<<"sdord", 4096, 0>>, <<"sdowr", 8448, 0, <<7>>>>, <<"rpdo", 9>>, <<"rpdo", 3>>, <<"sync">>, <<"lss">>, <<"other", 291>>, <<"other", 1413>>,
+             \* identifiers whose low byte is the monitored node (10) or the own node id, in other function-code ranges: not a heartbeat
+             <<"other", 1546>>, <<"other", 778>>, <<"other", 266>>, <<"other", 261>>,
              <<"hb", 10, 5>>, <<"hb", 11, 5>>, <<"emcyset">>, <<"emcyclr">>, <<"trig">>, <<"tick">>, <<"getmode">>}
 P09 == << <<"getmode">>, <<"sdord", 8448, 0>>, <<"sdord", 8449, 0>>, <<"rpdo", 77>>, <<"trig">>, <<"other", 291>>, <<"emcyset">>, <<"emcyclr">>,
           <<"tick">>, <<"tick">>, <<"tick">>, <<"hbev", 10>>, <<"nmt", 130, 5>>, <<"getmode">>, <<"sdord", 8449, 0>>, <<"tick">>, <<"tick">>, <<"tick">> >>
@@ -16,12 +18,12 @@ L10 == {<<"tick">>, <<"nmt", 1, 0>>, <<"nmt", 2, 5>>, <<"nmt", 128, 5>>, <<"nmt"
 P10 == << <<"pool">>, <<"sdord", 4119, 0>>, <<"tick">>, <<"tick">>, <<"tick">>, <<"tick">>, <<"tick">>, <<"tick">>, <<"tick">>, <<"tick">>, <<"tick">> >>
 \* ---- C11 ----
 HcW(k, node, time) == <<"sdowr", 4118, k, <<time % 256, time \div 256, node, 0>>>>
-L11 == {<<"tick">>} \cup {<<"hb", nd, st>> : nd \in {10, 11, 12}, st \in {5, 127}} \cup {<<"hb", 10, 9>>}
+L11 == {<<"tick">>, <<"other", 1546>>, <<"other", 522>>, <<"other", 1803 - 1792 + 1024>>} \cup {<<"hb", nd, st>> : nd \in {10, 11, 12}, st \in {5, 127}} \cup {<<"hb", 10, 9>>}
        \cup {HcW(k, nd, t) : k \in {1, 2}, nd \in {10, 11, 12}, t \in {0, 2, 3}}
        \cup {<<"hbev", nd>> : nd \in {10, 11, 12}} \cup {<<"hblast", nd>> : nd \in {10, 11}} \cup {<<"sdord", 4118, 1>>, <<"sdord", 4118, 2>>}
        \cup {HcW(1, 10, 32768), HcW(2, 12, 65535)}        \* the value range of the 16-bit consumer time
        \cup {<<"nmt", 130, 5>>}                            \* reset communication: monitoring starts afresh with the first heartbeat
-L11Q == {<<"tick">>} \cup {<<"hb", nd, 5>> : nd \in {10, 11, 12}} \cup {<<"hb", 10, 127>>}
+L11Q == {<<"tick">>, <<"other", 1546>>, <<"other", 522>>} \cup {<<"hb", nd, 5>> : nd \in {10, 11, 12}} \cup {<<"hb", 10, 127>>}
        \cup {HcW(k, nd, t) : k \in {1, 2}, nd \in {10, 11}, t \in {0, 2}} \cup {HcW(1, 12, 2)}
        \cup {<<"hbev", nd>> : nd \in {10, 11}} \cup {<<"hblast", 10>>, <<"sdord", 4118, 2>>} \cup {HcW(1, 10, 40000), <<"nmt", 130, 5>>}
 P11 == << <<"pool">>, <<"sdord", 4118, 1>>, <<"sdord", 4118, 2>>, <<"hb", 10, 5>>, <<"hb", 11, 5>>, <<"hb", 12, 5>>, <<"tick">>, <<"tick">>, <<"tick">>, <<"tick">>, <<"tick">>, <<"tick">>,
